@@ -172,6 +172,20 @@ CHECKS = {
          'every single corruption of it. Oracle: all corruption classes raise CompilationError/SyntaxError through lesscpy.compile, the diagnostic '
          'names the line that contains the token, the CLI reports them.'),
    note=BASE_NOTE + ' Rejection of non-balance corruptions (missing colon, illegal character, undefined variable) is exercised, not proved; that PLY implements LALR parsing of its tables is assumed and compared on every corrupted input.'),
+ 'C16': dict(category='proof',
+   technique='Lean 4 theorems on a hand-written state-machine model of ldirectory (file tree, mtimes, logical clock, compiler as a parameter) + step-wise correspondence on command-line histories',
+   text=('Theorems about Lessm.Batch.runDir for every tree, flag set, clock and compiler function: C16_dry (a dry run returns the output '
+         'tree and clock unchanged, at any depth); C16_file with C16_force / C16_missing_or_older / C16_newer_untouched (a .less file is '
+         'rewritten exactly when forced, missing or older, with exactly cc(source bytes) and a fresh time stamp, otherwise its output is '
+         'untouched); C16_untouched (no other name changes); C16_iso / C16_iso_alone (the bytes do not depend on the siblings or on the '
+         'listing order and equal those of the run over the file alone); C16_log (exactly the stale files are announced); C16_rec / '
+         'C16_norec / C16_dir_files (-r mirrors every non-hidden sub-directory, without -r sub-directories are unchanged); C16_idem '
+         '(a second run without -f rewrites and announces nothing). Tie: every run step of hand-written and random histories '
+         '{create, rewrite, touch source, touch output, delete output, run with a random subset of -f -D -m -r -x -X -t -s N -I} is '
+         'executed by the real command line (in-process and through python -m lesscpy) and by the model from the same pre-state; an '
+         'independent oracle judges staleness (quarter-second time stamps), isolation against compiling each file alone, dry run, '
+         'mirroring, and single-file mode against the library.'),
+   note=BASE_NOTE + ' The compiler is a parameter of the model; os.utime/os.walk/glob are trusted; -V, -g, -L, -S, -N are not modelled.'),
 }
 NOT_APPLICABLE = {p: 'check under construction in this round (see DESIGN.md section 10 build order); not claimed yet' for p in
-  ['C13','C14','C16','C20']}
+  ['C13','C14','C20']}
